@@ -202,6 +202,10 @@ enum EOp {
 struct EmitCase {
     max: u8,
     ops: Vec<EOp>,
+    /// the `log` logger is installed only before op number `.0` (ops before it run while `log` has
+    /// its no-op logger: nothing can be recorded, nothing is expected)
+    #[serde(default)]
+    logger_late: Option<u8>,
 }
 #[derive(Clone, Debug, Serialize, Deserialize)]
 enum Case {
@@ -578,10 +582,8 @@ fn steer(slots: &[Option<(SlotState, SpanInfo)>], slot: u8, want: impl Fn(&Optio
 }
 
 fn run_emit(case: &EmitCase) -> Outcome {
-    if log::set_logger(&REC_LOGGER).is_err() {
-        return Outcome { verdict: vp_engine::Verdict::Inconclusive("logger could not be installed".into()), nontrivial: false, classes: vec![], excluded_known: 0 };
-    }
-    log::set_max_level(log_filter_of(case.max));
+    let install_at = case.logger_late.map(|k| k as usize % case.ops.len().max(1)).unwrap_or(0);
+    let mut logger_installed = false;
     let mut slots: Vec<Option<(SlotState, SpanInfo)>> = vec![None, None, None];
     let mut installed = false;
     let mut guards = Vec::new();
@@ -589,6 +591,16 @@ fn run_emit(case: &EmitCase) -> Outcome {
     let (mut before, mut after, mut dispatch_only) = (0u32, 0u32, false);
     let mut kinds = std::collections::BTreeSet::new();
     for (oi, op) in case.ops.iter().enumerate() {
+        if !logger_installed && oi >= install_at {
+            if log::set_logger(&REC_LOGGER).is_err() {
+                return Outcome { verdict: vp_engine::Verdict::Inconclusive("logger could not be installed".into()), nontrivial: false, classes: vec![], excluded_known: 0 };
+            }
+            log::set_max_level(log_filter_of(case.max));
+            logger_installed = true;
+            if oi > 0 {
+                kinds.insert("emit:logger_installed_after_first_ops");
+            }
+        }
         LOGS.lock().unwrap().clear();
         let mut exp: Vec<Exp> = Vec::new();
         let life = |info: &SpanInfo, target: &str| Exp { level: 5, targets: vec![target.to_string()], pieces: vec![info.name.to_string()], lifecycle_of: Some(info.level) };
@@ -687,6 +699,9 @@ fn run_emit(case: &EmitCase) -> Outcome {
         }
         let got: Vec<LogRec> = LOGS.lock().unwrap().drain(..).collect();
         let ctx = || format!("op {oi}: {op:?}; log max level {}; a collector {} been installed; expected {exp:?}; log records: {got:?}", case.max, if installed { "has" } else { "has not" });
+        if !logger_installed {
+            continue; // nothing can be recorded yet
+        }
         if installed {
             if !exp.is_empty() {
                 after += 1;
@@ -873,12 +888,12 @@ impl Property for C18 {
         ];
         let nops = tier.pick(14usize, 24usize);
         // the first installation sits at a generated position inside the history (or is absent)
-        let emit = (prop_oneof![3 => Just(5u8), 2 => 0u8..6], proptest::collection::vec(eop.clone(), 1..nops), proptest::option::weighted(0.8, (install, proptest::collection::vec(prop_oneof![8 => eop, 1 => Just(EOp::Install(Install::ScopedDropped))], 1..nops)))).prop_map(|(max, mut ops, tail)| {
+        let emit = ((prop_oneof![3 => Just(5u8), 2 => 0u8..6], proptest::option::weighted(0.3, 1u8..6)), proptest::collection::vec(eop.clone(), 1..nops), proptest::option::weighted(0.8, (install, proptest::collection::vec(prop_oneof![8 => eop, 1 => Just(EOp::Install(Install::ScopedDropped))], 1..nops)))).prop_map(|((max, logger_late), mut ops, tail)| {
             if let Some((k, rest)) = tail {
                 ops.push(EOp::Install(k));
                 ops.extend(rest);
             }
-            Case::Emit(EmitCase { max, ops })
+            Case::Emit(EmitCase { max, ops, logger_late })
         });
         prop_oneof![bridge, emit].boxed()
     }
@@ -895,7 +910,7 @@ impl Property for C18 {
         }
     }
     fn rule(&self) -> String {
-        "one fresh process per case; half of the cases `bridge`: LogTracer built with 0-4 ignored prefixes (from a set with nested ones) and a generated log max level, 1-4 segments each with an optional scoped collector (level filter 0-5 x hint {none, same, higher} x target filter {all, subset of a 19-target alphabet, not \"log\", only \"log\"}) and optionally a global collector installed at a generated segment, 1-9 (thorough 15) records per segment (5 levels; targets from the alphabet incl. ignored prefixes, look-alikes, \"log\", arbitrary text; arbitrary message; file/line/module present or absent) through 4 routes {installed logger, log! macro, local LogTracer::new(), format_trace}; other half `emit`: generated log max level, <= 13 (thorough 23) ops {11 event macro call sites, 6 span call sites x new/enter/exit/record/drop over 3 slots, create-a-Dispatch-without-installing} then (80 %) a first installation {scoped, scoped-and-dropped, global, on another thread, with_default} followed by more ops; plus the complete enumeration of level / level-filter / metadata conversions. non-trivial: bridge = some record accepted and some rejected because of an ignored prefix or by its target only; emit = log-producing steps on both sides of the first installation; distinct by case".into()
+        "one fresh process per case; half of the cases `bridge`: LogTracer built with 0-4 ignored prefixes (from a set with nested ones) and a generated log max level, 1-4 segments each with an optional scoped collector (level filter 0-5 x hint {none, same, higher} x target filter {all, subset of a 19-target alphabet, not \"log\", only \"log\"}) and optionally a global collector installed at a generated segment, 1-9 (thorough 15) records per segment (5 levels; targets from the alphabet incl. ignored prefixes, look-alikes, \"log\", arbitrary text; arbitrary message; file/line/module present or absent) through 4 routes {installed logger, log! macro, local LogTracer::new(), format_trace}; other half `emit`: generated log max level, the recording logger installed at the start or (30 %) only after the first 1-5 ops, <= 13 (thorough 23) ops {11 event macro call sites, 6 span call sites x new/enter/exit/record/drop over 3 slots, create-a-Dispatch-without-installing} then (80 %) a first installation {scoped, scoped-and-dropped, global, on another thread, with_default} followed by more ops; plus the complete enumeration of level / level-filter / metadata conversions. non-trivial: bridge = some record accepted and some rejected because of an ignored prefix or by its target only; emit = log-producing steps on both sides of the first installation; distinct by case".into()
     }
     fn assumptions(&self) -> Vec<String> {
         vec![
